@@ -91,11 +91,12 @@ Lemma counted_no_sliding keep reflen dp b : 0 < b ->
   then [(b * (dp / b), b * (dp / b) + b)] else [].
 Proof.
   intros Hb. unfold counted_bins. rewrite (no_sliding bins_t bins_t_def) by assumption.
-  cbn [filter fst snd]. unfold skip_bin.
-  destruct keep; cbn [negb andb orb]; [reflexivity|].
-  destruct (0 <=? b * (dp / b)) eqn:E1; destruct (b * (dp / b) + b <=? reflen) eqn:E2;
-    destruct (b * (dp / b) <? 0) eqn:E3; destruct (b * (dp / b) + b >? reflen) eqn:E4;
-    cbn [negb andb orb]; try reflexivity; exfalso; lia.
+  cbn [filter fst snd].
+  (* robust to equivalent rewrites of the regenerated over-bounds test: decided by lia on booleans *)
+  destruct (skip_bin keep (b * (dp / b)) (b * (dp / b) + b) reflen) eqn:E;
+    destruct (keep || ((0 <=? b * (dp / b)) && (b * (dp / b) + b <=? reflen))) eqn:F;
+    cbn [negb]; try reflexivity; exfalso; unfold skip_bin in E;
+    generalize dependent (b * (dp / b)); intros lo E F; destruct keep; cbn in E, F; lia.
 Qed.
 
 Definition weight_inside keep b (reads : list read) : Z :=
